@@ -31,7 +31,8 @@ META = {
                    "that backs up only over non-working slots. The universally quantified statement about all free slots "
                    "is NOT decided."
                    " Also: C04's backward-bound rules, the selection table of the container end handed down the tree and its start at every root, memo-key soundness of the calendar code, task identity by local id, and the handling of a deadline inside a slot (known finding F49)."
-                   " Round 3: what a container hands down to its children is a selection between own and inherited end wherever it is computed, leave loops half-open, process-state rule with census.",
+                   " Round 3: what a container hands down to its children is a selection between own and inherited end wherever it is computed, leave loops half-open, process-state rule with census."
+                   " Round 4: backward mode is propagated through tasks that are backward themselves (must-facts at every exit of the walk), successor edge set.",
     "assumptions": [],
 }
 
